@@ -424,6 +424,9 @@ HEADS = [
     ('def w0(*args, **kwargs):\n    return w(*args, **kwargs)\ndef w(*args, **kwargs):', 'functools.partial(w0, zz9=3)'),
     ('class K:\n    def __init__(self, name):\n        pass\n    def __call__(self, *args, **kwargs):', 'K'),
     ('class K:\n    def __init__(self, name):\n        pass\n    def __call__(self, *args, **kwargs):', 'K("n")'),
+    # partial objects binding a keyword spelled like one of the star parameters (it ends up in **kwargs)
+    ('def w(*args, **kwargs):', 'functools.partial(w, args=(1, 2))'),
+    ('def w(a, *args, **kwargs):', 'functools.partial(w, 1, kwargs=3, args=4)'),
     # a partial object inspect rejects (too many positionals for the forwarding function itself): same exception type
     ('def w0(c, **kwargs):\n    return c(**kwargs)\ndef w(*args, **kwargs):', 'functools.partial(w0, w, 1)'),
 ]
